@@ -26,6 +26,41 @@ CHECKS = {
               'matrix, all queries and the counter contents must equal the model; real cms_hash locations are shipped to the model.'),
         technique='Lean 4 proof (representation invariant by induction over the stream) + differential correspondence harness',
         design='§5 C15'),
+    'C01': dict(
+        text=('Theorems (Lean 4 + Mathlib, over ℝ with Real.log) about an executable model of mutual_info_estimator_numba that is '
+              'polymorphic in its arithmetic: for ALL equal-length vectors (any n >= 1, any codes, any joint partition) the plain '
+              'estimator returns exactly the plug-in MI (estimator_eq_plugin), which is symmetric, >= 0 (Gibbs), 0 when a side is '
+              'constant, <= min(H(Y),H(X)), and equals H(X) on (X,X). The same definitions run at Float in the driver; the tie '
+              'compares the real njit function with them on generated pairs within a float32 rounding tolerance, and the '
+              'Lean-checked spec (pluginL = miPlugin) is evaluated on the implementation outputs.'),
+        technique='Lean 4 proof over ℝ (count-table closed form, Gibbs inequality) + differential correspondence harness',
+        design='§5 C01'),
+    'C02': dict(
+        text=('Theorems over the same model: relabel_invariant (any maps injective on the occurring codes leave plain and corrected '
+              'scores unchanged, for all vectors), dispatch_identical / dispatch_different (self-pair handling exactly when the '
+              'vectors are element-wise identical), sum_test_unsound (why the old sum test broke it). Tie: real estimator vs model, '
+              'with a 30% stream of equal-sum / equal-histogram non-identical pairs; oracle = invariance of the implementation '
+              'under generated relabelings + the dispatch clause.'),
+        technique='Lean 4 proof over ℝ (finset reindexing under injective relabeling) + differential correspondence harness',
+        design='§5 C02'),
+    'C03': dict(
+        text=('Theorems: corrected_identity (score = H(Y*|X) − H(Y|X) for all Y ≠ X), corrected_const = 0, corrected_alldistinct = 0, '
+              'corrected_self = H(X), for all vectors. PARTIAL: the ranking corollary (signal outranks independent noise for all '
+              'seeds at n >= 4000) is statistical, false for adversarial noise; it is measured (minimum margin recorded in the '
+              'evidence, failing only if the corrected margin is <= 0 on some seed), not proved. Tie: real estimator with the '
+              'flag on vs model; name -> flag mapping checked through numba_mi.'),
+        technique='Lean 4 proof over ℝ + differential correspondence harness; statistical corollary measured',
+        design='§5 C03'),
+    'C04': dict(
+        text=('Theorems (core Lean) over a model of stratified_subsampling with an explicit uninitialised-cell memory model: for EVERY '
+              'content of the uninitialised buffer the repaired code never reads an uninitialised or out-of-range cell and returns '
+              'exactly the stated sample (subsample_safe); sampled rows are valid, distinct, per-value first-quota positions; the '
+              'estimator always terminates (estimator_ok) and its score is a function of the sampled rows only (score_sample_only, any '
+              'arithmetic); old_buffer_unsafe documents the pre-fix read. PARTIAL: that the native code performs exactly the modelled '
+              'reads is observed, not proved: every case runs in fresh processes under MALLOC_PERTURB_ 0/85/170 (segfault, '
+              'allocator-dependent values and out-of-sample dependence are oracle failures).'),
+        technique='Lean 4 proof (memory-model refinement, list induction) + fresh-process differential harness under allocator perturbation',
+        design='§5 C04'),
 }
 
 NOT_YET = {}
